@@ -2,8 +2,10 @@ CONSTANTS
   Names <- MCNames
   MaxNodes = 3
   AllowDangling = FALSE
+  AllowCycles = TRUE
   CheckSkips = {1}
   FullUpTo = 2
+  OnlyCyclic = FALSE
   MinNodes = 0
 INIT Init
 NEXT Next
